@@ -43,9 +43,7 @@ Theorem g__do_verify_changes_eq self p expected current :
 Proof.
   destruct self as [d r m s]. unfold g__do_verify_changes, g__raise_or_log, verify, on_st, obj_bidirectional, py_ne_opt.
   cbn [o_diff o_st obj_set_st o_rev o_mutate].
-  destruct (d_bidir d); cbn [andb]; [|reflexivity].
-  destruct expected as [e|]; [|reflexivity].
-  destruct (py_eqv e current); reflexivity.
+  destruct (d_bidir d); destruct expected as [e|]; try destruct (py_eqv e current); reflexivity.
 Qed.
 
 (* ------------------------------------------------------------------ *)
@@ -219,9 +217,8 @@ Proof.
   intros Hp. destruct self as [d r m [rt p e]]. cbn [o_st post] in Hp. subst p.
   unfold g___add__. cbv zeta.
   destruct m; cbn [o_mutate negb]; unfold py_deepcopy, obj_set_root, obj_set_st; cbn [o_st post o_diff o_rev o_mutate];
-    repeat pass_step;
-    match goal with |- context [g_reset (obj_del_root (mkObj ?d ?r ?m ?s))] => rewrite (mk_finish d r m s) end;
-    reflexivity.
+    repeat pass_step; unfold g_reset, obj_del_root, obj_set_post, obj_root, obj_set_st, after, apply;
+    cbn [o_st o_diff o_rev o_mutate root post errs as_paths fst snd]; reflexivity.
 Qed.
 
 Theorem g___radd___eq self other : g___radd__ conv ro ao self other = g___add__ conv ro ao self other.
